@@ -205,6 +205,10 @@ struct CaseSpec {
     foe: bool,
     verbose: bool,
     path_style: u8,
+    /// with two files: the tests of the second file reuse the function names of the first file's tests
+    collide: bool,
+    /// 0 = re-run after editing the first file, 1 = after editing the last file, other = single run
+    rerun: u8,
 }
 
 fn test_strat() -> impl Strategy<Value = TestSpec> {
@@ -258,8 +262,10 @@ fn case_strat() -> impl Strategy<Value = CaseSpec> {
         prop::bool::weighted(0.3),
         prop::bool::weighted(0.25),
         0u8..4,
+        prop::bool::weighted(0.5),
+        0u8..12,
     )
-        .prop_map(|(f0, f1, second_in_subdir, ghost_file, k, slow, x, foe, verbose, path_style)| {
+        .prop_map(|(f0, f1, second_in_subdir, ghost_file, k, slow, x, foe, verbose, path_style, collide, rerun)| {
             let mut files = vec![f0];
             if let Some(mut f1) = f1 {
                 // cost bound: at most 6 test functions per case
@@ -267,7 +273,7 @@ fn case_strat() -> impl Strategy<Value = CaseSpec> {
                 f1.tests.truncate(room);
                 files.push(f1);
             }
-            CaseSpec { files, second_in_subdir, ghost_file, k, slow, x, foe, verbose, path_style }
+            CaseSpec { files, second_in_subdir, ghost_file, k, slow, x, foe, verbose, path_style, collide, rerun }
         })
 }
 
@@ -308,6 +314,8 @@ struct RCase {
     fail_on_empty: bool,
     tests: Vec<RTest>,
     ghosts: Vec<Ghost>,
+    /// a second invocation in the same directory after these (edited) files replaced the first ones
+    rerun: Option<Box<RCase>>,
 }
 
 fn marker_lines(id: &str, body: &[String]) -> Vec<String> {
@@ -332,7 +340,7 @@ fn render_fn(decorators: &[String], name: &str, params: &str, lines: &[String]) 
     s
 }
 
-const PROFILES: [&str; 9] = [
+const PROFILES: [&str; 11] = [
     "skip-present",
     "k-matches-second-word",
     "empty-selection",
@@ -341,6 +349,8 @@ const PROFILES: [&str; 9] = [
     "stop-on-first-failure",
     "xfail-both-ways-no-plain-failure",
     "non-tests-present",
+    "same-name-in-two-files",
+    "rerun-after-edit",
     "free",
 ];
 
@@ -455,6 +465,41 @@ fn apply_profile(spec: &CaseSpec, slot: usize) -> CaseSpec {
                 s.path_style = 0;
             }
         }
+        8 => {
+            // two collected files define a test with the same function name and different true verdicts
+            s.k = KSel::None;
+            s.x = false;
+            s.collide = true;
+            if s.files.len() < 2 {
+                let mut f1 = s.files[0].clone();
+                f1.suffix_style = !f1.suffix_style;
+                let room = 6usize.saturating_sub(s.files[0].tests.len()).max(1);
+                f1.tests.truncate(room);
+                s.files.push(f1);
+            }
+            let b0 = s.files[0].tests[0].beh;
+            {
+                let t = &mut s.files[0].tests[0];
+                t.mark = Mark::None;
+                t.slow = false;
+            }
+            let t = &mut s.files[1].tests[0];
+            t.mark = Mark::None;
+            t.slow = false;
+            if t.beh.passes() == b0.passes() {
+                t.beh = if b0.passes() { Beh::FailEq } else { Beh::PassWork };
+            }
+        }
+        9 => {
+            // the same directory is tested twice; between the runs one file is edited so that its verdicts flip
+            s.k = KSel::None;
+            s.x = false;
+            if s.rerun > 1 {
+                s.rerun %= 2;
+            }
+            let t = &mut s.files[0].tests[0];
+            t.slow = false;
+        }
         _ => {}
     }
     s
@@ -462,12 +507,28 @@ fn apply_profile(spec: &CaseSpec, slot: usize) -> CaseSpec {
 
 /// Turn a generator spec into concrete files + model facts. `allow_fixture` is false when the fixture finding is open.
 fn resolve(spec0: &CaseSpec, slot: usize, allow_fixture: bool, excluded_fixture: &mut u64) -> RCase {
-    let spec = &apply_profile(spec0, slot);
+    let spec = apply_profile(spec0, slot);
+    let mut rc = render(&spec, allow_fixture, excluded_fixture);
+    if spec.rerun <= 1 {
+        let mut s2 = spec.clone();
+        let fi = if spec.rerun == 1 { s2.files.len() - 1 } else { 0 };
+        for t in s2.files[fi].tests.iter_mut() {
+            t.beh = if t.beh.passes() { Beh::FailEq } else { Beh::PassPlain };
+            t.n = t.n % 8 + 1;
+        }
+        let mut ignore = 0;
+        rc.rerun = Some(Box::new(render(&s2, allow_fixture, &mut ignore)));
+    }
+    rc
+}
+
+fn render(spec: &CaseSpec, allow_fixture: bool, excluded_fixture: &mut u64) -> RCase {
     let mut files = Vec::new();
     let mut tests = Vec::new();
     let mut ghosts = Vec::new();
     let mut counter = 0usize;
     let mut ghost_counter = 0usize;
+    let mut first_file_names: Vec<String> = Vec::new();
     let single_file_path = spec.path_style == 2 && spec.files.len() == 1;
 
     for (fi, f) in spec.files.iter().enumerate() {
@@ -492,7 +553,16 @@ fn resolve(spec0: &CaseSpec, slot: usize, allow_fixture: bool, excluded_fixture:
         }
         for t in &f.tests {
             let id = format!("t{counter}");
-            let name = format!("test_{}_{}_{}", WORDS[t.w1], WORDS[t.w2], counter);
+            let pos = tests.iter().filter(|x: &&RTest| x.file == rel).count();
+            let name = if fi == 1 && spec.collide && pos < first_file_names.len() {
+                // same function name as a test of the first file (marker id stays distinct)
+                first_file_names[pos].clone()
+            } else {
+                format!("test_{}_{}_{}", WORDS[t.w1], WORDS[t.w2], counter)
+            };
+            if fi == 0 {
+                first_file_names.push(name.clone());
+            }
             counter += 1;
             let mut decorators = Vec::new();
             let (mark, reason) = match t.mark {
@@ -590,7 +660,7 @@ fn resolve(spec0: &CaseSpec, slot: usize, allow_fixture: bool, excluded_fixture:
         2 => args.push("tests".into()),
         _ => {} // default path "."
     }
-    RCase { files, args, k, slow: spec.slow, x: spec.x, fail_on_empty: spec.foe, tests, ghosts }
+    RCase { files, args, k, slow: spec.slow, x: spec.x, fail_on_empty: spec.foe, tests, ghosts, rerun: None }
 }
 
 fn rcase_to_json(rc: &RCase) -> Value {
@@ -606,6 +676,7 @@ fn rcase_to_json(rc: &RCase) -> Value {
             "mark": t.mark, "reason": t.reason, "slow": t.slow, "fixture": t.fixture,
         })).collect::<Vec<_>>(),
         "ghosts": rc.ghosts.iter().map(|g| json!({"id": g.id, "name": g.name, "why": g.why})).collect::<Vec<_>>(),
+        "rerun": rc.rerun.as_ref().map(|r| rcase_to_json(r)),
     })
 }
 
@@ -647,6 +718,7 @@ fn rcase_from_json(v: &Value) -> Option<RCase> {
         fail_on_empty: v["fail_on_empty"].as_bool().unwrap_or(false),
         tests,
         ghosts,
+        rerun: if v["rerun"].is_object() { Some(Box::new(rcase_from_json(&v["rerun"])?)) } else { None },
     })
 }
 
@@ -709,6 +781,7 @@ struct Obs {
     summary_text: String,
     begin: BTreeSet<String>,
     end: BTreeSet<String>,
+    rerun: Option<Box<Obs>>,
 }
 
 fn strip_ansi(s: &str) -> String {
@@ -845,6 +918,7 @@ fn warm_target_dirs(farm: &Farm) -> Result<u64, String> {
         fail_on_empty: false,
         tests: vec![],
         ghosts: vec![],
+        rerun: None,
     };
     let warm_one = |k: usize| -> Result<(), String> {
         let _ = std::fs::create_dir_all(Farm::target_dir(k));
@@ -875,12 +949,37 @@ fn warm_target_dirs(farm: &Farm) -> Result<u64, String> {
 }
 
 fn run_case_on(rc: &RCase, farm: &Farm, k: usize) -> Obs {
-    let mut obs = Obs::default();
     let dir = farm.case_dir();
     let mdir = dir.join("m");
-    let _ = std::fs::create_dir_all(&mdir);
+    let tgt = Farm::target_dir(k);
+    let mut obs = run_stage(rc, None, farm, &dir, &mdir, &tgt);
+    if let Some(r2) = &rc.rerun {
+        if obs.infra.is_none() {
+            // second invocation in the same working directory after an edit: only the changed files are rewritten
+            let o2 = run_stage(r2, Some(rc), farm, &dir, &mdir, &tgt);
+            if let Some(e) = &o2.infra {
+                obs.infra = Some(format!("re-run: {e}"));
+            }
+            obs.rerun = Some(Box::new(o2));
+        }
+    }
+    clean_harness_artifacts(&tgt);
+    if !farm.keep_projects {
+        let _ = std::fs::remove_dir_all(&dir);
+    }
+    obs
+}
+
+/// One `incan test` invocation in `dir`. `prev` = the case whose files are already on disk (re-run stage).
+fn run_stage(rc: &RCase, prev: Option<&RCase>, farm: &Farm, dir: &Path, mdir: &Path, tgt: &Path) -> Obs {
+    let mut obs = Obs::default();
+    let _ = std::fs::remove_dir_all(mdir);
+    let _ = std::fs::create_dir_all(mdir);
     let mtext = mdir.to_string_lossy().to_string();
     for (rel, src) in &rc.files {
+        if prev.is_some_and(|p| p.files.iter().any(|(r0, s0)| r0 == rel && s0 == src)) {
+            continue;
+        }
         let p = dir.join(rel);
         if let Some(parent) = p.parent() {
             let _ = std::fs::create_dir_all(parent);
@@ -890,10 +989,9 @@ fn run_case_on(rc: &RCase, farm: &Farm, k: usize) -> Obs {
             return obs;
         }
     }
-    let tgt = Farm::target_dir(k);
     let mut c = Command::new(&farm.incan);
-    c.arg("test").args(&rc.args).current_dir(&dir);
-    c.env("CARGO_TARGET_DIR", &tgt)
+    c.arg("test").args(&rc.args).current_dir(dir);
+    c.env("CARGO_TARGET_DIR", tgt)
         .env("CARGO_NET_OFFLINE", "true")
         .env("CARGO_INCREMENTAL", "0")
         .env("CARGO_PROFILE_DEV_DEBUG", "0")
@@ -901,7 +999,6 @@ fn run_case_on(rc: &RCase, farm: &Farm, k: usize) -> Obs {
         .env("NO_COLOR", "1")
         .env("INCAN_NO_BANNER", "1");
     let r = farm::run_cmd(c, Duration::from_secs(3600));
-    clean_harness_artifacts(&tgt);
     if r.timed_out {
         obs.infra = Some("watchdog: incan test".into());
     }
@@ -918,7 +1015,7 @@ fn run_case_on(rc: &RCase, farm: &Farm, k: usize) -> Obs {
     parse_output(&r.stdout, &mut obs);
     obs.stdout = r.stdout;
     obs.stderr = r.stderr;
-    if let Ok(rd) = std::fs::read_dir(&mdir) {
+    if let Ok(rd) = std::fs::read_dir(mdir) {
         for e in rd.flatten() {
             let n = e.file_name().to_string_lossy().to_string();
             if let Some(id) = n.strip_suffix(".begin") {
@@ -927,9 +1024,6 @@ fn run_case_on(rc: &RCase, farm: &Farm, k: usize) -> Obs {
                 obs.end.insert(id.to_string());
             }
         }
-    }
-    if !farm.keep_projects {
-        let _ = std::fs::remove_dir_all(&dir);
     }
     obs
 }
@@ -950,16 +1044,34 @@ struct JudgeStats {
     verdicts: BTreeMap<String, u64>,
 }
 
+/// `file name::function name`, the way the runner prints a test.
+fn qual(t: &RTest) -> String {
+    format!("{}::{}", t.file.rsplit('/').next().unwrap_or(&t.file), t.name)
+}
+
+/// Judge the first invocation and, when the case has one, the re-run after the edit (signatures prefixed `rerun:`).
 fn judge(rc: &RCase, obs: &Obs, stats: &mut JudgeStats) -> Vec<Fail> {
+    let mut fails = judge_stage(rc, obs, stats);
+    if let (Some(r2), Some(o2)) = (&rc.rerun, &obs.rerun) {
+        for f in judge_stage(r2, o2, stats) {
+            let key = if f.key == KEY_HARNESS || f.key == KEY_FIXTURE { f.key } else { format!("rerun:{}", f.key) };
+            fails.push(Fail { key, what: format!("[second run, after the edit] {}", f.what) });
+        }
+    }
+    fails
+}
+
+fn judge_stage(rc: &RCase, obs: &Obs, stats: &mut JudgeStats) -> Vec<Fail> {
     let mut fails: Vec<Fail> = Vec::new();
     let mut push = |key: String, what: String| fails.push(Fail { key, what });
 
-    let by_name: BTreeMap<&str, &RTest> = rc.tests.iter().map(|t| (t.name.as_str(), t)).collect();
-    let sel: BTreeSet<&str> = rc.tests.iter().filter(|t| selected(rc, t)).map(|t| t.name.as_str()).collect();
+    // a test is identified by (file name, function name): the same function name may occur in several files
+    let by_name: BTreeMap<String, &RTest> = rc.tests.iter().map(|t| (qual(t), t)).collect();
+    let sel: BTreeSet<String> = rc.tests.iter().filter(|t| selected(rc, t)).map(qual).collect();
     stats.selected += sel.len() as u64;
     stats.deselected += (rc.tests.len() - sel.len()) as u64;
     for t in &rc.tests {
-        if sel.contains(t.name.as_str()) {
+        if sel.contains(&qual(t)) {
             *stats.verdicts.entry(expected_verdict(t).to_string()).or_insert(0) += 1;
             if t.mark != "skip" {
                 stats.executed_expected += 1;
@@ -972,31 +1084,32 @@ fn judge(rc: &RCase, obs: &Obs, stats: &mut JudgeStats) -> Vec<Fail> {
     }
 
     // ---- reported lines: every line names a selected test of the right file, once
-    let mut reported: BTreeMap<&str, &Line> = BTreeMap::new();
+    let mut reported: BTreeMap<String, &Line> = BTreeMap::new();
     for l in &obs.lines {
         if let Some(g) = rc.ghosts.iter().find(|g| g.name == l.name) {
             push(format!("selection:collected-a-non-test:{}", g.why), format!("`{}` was reported {}", l.name, l.status));
             continue;
         }
-        let Some(t) = by_name.get(l.name.as_str()) else {
-            push("report:unknown-test-name".into(), format!("`{}::{}` is not a test of the input", l.file, l.name));
+        let lq = format!("{}::{}", l.file, l.name);
+        let Some(t) = by_name.get(&lq) else {
+            if let Some(t) = rc.tests.iter().find(|t| t.name == l.name) {
+                push("report:wrong-file-name".into(), format!("`{}` reported under `{}`, lives in `{}`", l.name, l.file, t.file));
+            } else {
+                push("report:unknown-test-name".into(), format!("`{}::{}` is not a test of the input", l.file, l.name));
+            }
             continue;
         };
-        if reported.insert(l.name.as_str(), l).is_some() {
-            push("report:test-reported-twice".into(), format!("`{}` has two status lines", l.name));
+        if reported.insert(lq.clone(), l).is_some() {
+            push("report:test-reported-twice".into(), format!("`{lq}` has two status lines"));
         }
-        let base = t.file.rsplit('/').next().unwrap_or(&t.file);
-        if l.file != base {
-            push("report:wrong-file-name".into(), format!("`{}` reported under `{}`, lives in `{}`", l.name, l.file, t.file));
-        }
-        if !sel.contains(l.name.as_str()) {
+        if !sel.contains(&lq) {
             let why = if rc.k.as_ref().is_some_and(|k| !t.name.contains(k.as_str())) { "k-does-not-match" } else { "slow-without--slow" };
             push(format!("selection:ran-deselected-test:{why}"), format!("`{}` is deselected ({why}) but was reported {}", l.name, l.status));
         }
     }
 
     // ---- selected tests that are not reported
-    let missing: Vec<&str> = sel.iter().copied().filter(|n| !reported.contains_key(n)).collect();
+    let missing: Vec<&String> = sel.iter().filter(|n| !reported.contains_key(*n)).collect();
     let mut cut_off_by_x = false;
     if rc.x {
         if let Some(p) = obs.lines.iter().position(|l| l.status == "FAILED") {
@@ -1011,7 +1124,7 @@ fn judge(rc: &RCase, obs: &Obs, stats: &mut JudgeStats) -> Vec<Fail> {
     }
     if !cut_off_by_x {
         for n in &missing {
-            let t = by_name[n];
+            let t = by_name[*n];
             let why = if rc.k.is_some() { "k-matches" } else if t.slow { "slow-with--slow" } else { "plain" };
             push(format!("selection:selected-test-not-reported:{why}"), format!("`{n}` is selected ({why}) and has no status line"));
         }
@@ -1039,7 +1152,7 @@ fn judge(rc: &RCase, obs: &Obs, stats: &mut JudgeStats) -> Vec<Fail> {
         let e = obs.end.contains(&t.id);
         let facts = format!(
             "`{}` ({}, mark={}) expected {exp}, reported {got}; begin marker {}, end marker {}",
-            t.name,
+            name,
             t.beh,
             t.mark,
             if b { "present" } else { "absent" },
@@ -1091,9 +1204,9 @@ fn judge(rc: &RCase, obs: &Obs, stats: &mut JudgeStats) -> Vec<Fail> {
 
     // ---- tests without a status line and non-tests must not have run
     for t in &rc.tests {
-        if !reported.contains_key(t.name.as_str()) && obs.begin.contains(&t.id) {
-            let why = if sel.contains(t.name.as_str()) { "selected-but-unreported" } else { "deselected" };
-            push(format!("exec:unreported-test-ran:{why}"), format!("`{}` has no status line but its body began", t.name));
+        if !reported.contains_key(&qual(t)) && obs.begin.contains(&t.id) {
+            let why = if sel.contains(&qual(t)) { "selected-but-unreported" } else { "deselected" };
+            push(format!("exec:unreported-test-ran:{why}"), format!("`{}` has no status line but its body began", qual(t)));
         }
     }
     for g in &rc.ghosts {
@@ -1177,6 +1290,12 @@ fn case_hash(rc: &RCase) -> u64 {
         s.push_str(src);
     }
     s.push_str(&rc.args.join(" "));
+    if let Some(r2) = &rc.rerun {
+        for (p, src) in &r2.files {
+            s.push_str(p);
+            s.push_str(src);
+        }
+    }
     util::hash_str(&s)
 }
 
@@ -1187,18 +1306,21 @@ fn describe(rc: &RCase, obs: &Obs, fails: &[Fail], key: &str) -> String {
         d.push_str(&format!("{}\n", f.what));
     }
     d.push_str("--- expected (model of the documented runner)\n");
-    for t in &rc.tests {
-        d.push_str(&format!(
-            "{} {}\n",
-            t.name,
-            if selected(rc, t) { expected_verdict(t) } else { "(deselected)" }
-        ));
+    let stage = |d: &mut String, rc: &RCase, obs: &Obs| {
+        for t in &rc.tests {
+            d.push_str(&format!("{} ({}) {}\n", qual(t), t.beh, if selected(rc, t) { expected_verdict(t) } else { "(deselected)" }));
+        }
+        d.push_str(&format!("--- observed: exit {:?}\n", obs.status));
+        for l in &obs.lines {
+            d.push_str(&format!("{}::{} {} {}\n", l.file, l.name, l.status, l.rest));
+        }
+        d.push_str(&format!("{}\n", obs.summary_text));
+    };
+    stage(&mut d, rc, obs);
+    if let (Some(r2), Some(o2)) = (&rc.rerun, &obs.rerun) {
+        d.push_str("--- second run in the same directory after editing a file: expected\n");
+        stage(&mut d, r2, o2);
     }
-    d.push_str(&format!("--- observed: exit {:?}\n", obs.status));
-    for l in &obs.lines {
-        d.push_str(&format!("{}::{} {} {}\n", l.file, l.name, l.status, l.rest));
-    }
-    d.push_str(&format!("{}\n", obs.summary_text));
     d
 }
 
@@ -1206,12 +1328,22 @@ fn sample_json(rc: &RCase, obs: &Obs) -> Value {
     json!({
         "args": rc.args,
         "files": rc.files.iter().map(|(p, s)| json!({"path": p, "source": util::truncate(s, 1500)})).collect::<Vec<_>>(),
-        "expected": rc.tests.iter().map(|t| format!("{} {}", t.name, if selected(rc, t) { expected_verdict(t) } else { "deselected" })).collect::<Vec<_>>(),
+        "expected": rc.tests.iter().map(|t| format!("{} {}", qual(t), if selected(rc, t) { expected_verdict(t) } else { "deselected" })).collect::<Vec<_>>(),
         "observed_lines": obs.lines.iter().map(|l| format!("{}::{} {}", l.file, l.name, l.status)).collect::<Vec<_>>(),
         "observed_summary": obs.summary_text,
         "observed_exit": obs.status,
         "begin_markers": obs.begin.iter().cloned().collect::<Vec<_>>(),
         "end_markers": obs.end.iter().cloned().collect::<Vec<_>>(),
+        "second_run_after_edit": match (&rc.rerun, &obs.rerun) {
+            (Some(r2), Some(o2)) => json!({
+                "edited_files": r2.files.iter().filter(|(p, s)| !rc.files.iter().any(|(p0, s0)| p0 == p && s0 == s)).map(|(p, _)| p.clone()).collect::<Vec<_>>(),
+                "expected": r2.tests.iter().map(|t| format!("{} {}", qual(t), if selected(r2, t) { expected_verdict(t) } else { "deselected" })).collect::<Vec<_>>(),
+                "observed_lines": o2.lines.iter().map(|l| format!("{}::{} {}", l.file, l.name, l.status)).collect::<Vec<_>>(),
+                "observed_summary": o2.summary_text,
+                "observed_exit": o2.status,
+            }),
+            _ => Value::Null,
+        },
     })
 }
 
@@ -1221,7 +1353,9 @@ fn main() {
     let mut out = Outcome::new("C16");
     let mut ev = Evidence::new(
         &args,
-        "a case is one `incan test` invocation on a generated directory (1-2 test files, 1-6 test functions, flags). It is \
+        "a case is one `incan test` invocation on a generated directory (1-2 test files, 1-6 test functions, flags; with \
+         two files the second may reuse the first file's function names; optionally a second invocation in the same \
+         directory after one file was edited so that its verdicts flip). It is \
          non-trivial if its functions show >= 2 different body behaviours and at least one function fails, panics or \
          carries a marker (@skip/@xfail/@slow). Distinct = hash of all file texts + the CLI arguments.",
     );
@@ -1301,7 +1435,7 @@ fn main() {
     }
 
     // ---- generated cases
-    let n_cases = args.tier.pick(8usize, 81usize);
+    let n_cases = args.tier.pick(10usize, 88usize);
     // every shrink step is a full CLI run of the candidate case; VERIF_SHRINK_ITERS overrides the bound (0 = report unshrunk)
     let shrink_iters = std::env::var("VERIF_SHRINK_ITERS").ok().and_then(|v| v.parse().ok()).unwrap_or(args.tier.pick(4usize, 10usize));
     let strat = case_strat();
@@ -1331,6 +1465,20 @@ fn main() {
             ev.class(&format!("non-test:{}", g.why));
         }
         ev.class(&format!("scenario:{}", PROFILES[i % PROFILES.len()]));
+        {
+            let mut names: BTreeMap<&str, BTreeSet<&str>> = BTreeMap::new();
+            for t in &rc.tests {
+                names.entry(t.name.as_str()).or_default().insert(t.file.as_str());
+            }
+            let shared = names.values().filter(|f| f.len() > 1).count() as u64;
+            if shared > 0 {
+                ev.class("case-with-same-test-name-in-two-files");
+                ev.class_n("test-names-shared-by-two-files", shared);
+            }
+            if rc.rerun.is_some() {
+                ev.class("case-rerun-after-edit");
+            }
+        }
         ev.class(&format!("files:{}", rc.files.iter().filter(|(p, _)| p != "tests/helpers.incn").count()));
         for a in &rc.args {
             if a.starts_with('-') {
@@ -1349,7 +1497,7 @@ fn main() {
         if rc.tests.iter().all(|t| !selected(rc, t)) {
             ev.class("selection:empty");
         }
-        executed_observed += obs.begin.len() as u64;
+        executed_observed += obs.begin.len() as u64 + obs.rerun.as_ref().map(|o| o.begin.len() as u64).unwrap_or(0);
         if let Some(e) = &obs.infra {
             out.inconclusive(&format!("case {i}: {e}"));
             continue;
